@@ -1,6 +1,6 @@
 """C04 -- a trashed entry is never overwritten; names stay unique (also concurrently)."""
 from .common import *  # noqa
-from .putroles import PutRoles, os_flags
+from .putroles import PutRoles, os_flags, precedes
 
 EXPLANATION = (
     'Structural necessary conditions of name uniqueness on the trash-put graph: (R04.1) '
@@ -61,7 +61,7 @@ def check(ctx):
             continue
         ids = frozenset(cid(i) for i in infos)
         owners = [o for o in r.opens if alt_ids(r.info_of(o)) == ids and
-                  g.dominates(o.id, m.id)]
+                  precedes(b, r, o.id, m.id)]
         ctx.ob('R04.2', 'MOVE destination is pbc() of the exclusively created info', bool(owners),
                node=m, message='the payload is moved to a name whose .trashinfo was not '
                                'created exclusively on this path')
@@ -119,12 +119,19 @@ def check(ctx):
                     is_call(strip(x.container), 'itertools.count')]
         incs = [n.id for n in b.nodes('assign')
                 if n.data.get('aug') == '+' and n.data['target'] in names]
+        # ... or the index lives in an object: an augmented store whose new value is one
+        # of the values the name is computed from
+        fields = [n for n in b.nodes('assign') if n.data.get('aug') == '+' and
+                  '.' in n.data['target'] and
+                  (contains(info, lambda x, _v=cid(n.data['value']): cid(x) == _v) or
+                   any(nm.endswith('.' + n.data['target'].split('.')[-1]) for nm in names))]
+        incs += [n.id for n in fields]
         outer = [d for d in g.dominators(o.id)
                  if g.n(d).kind == 'loop' and g.n(d).data.get('kind') == 'for']
         again = o.id in g.reachable_from([t for t, _ in g.succ[o.id]],
                                          blocked=set(incs) | set(outer))
         ctx.ob('R04.5', 'every retry of the exclusive creation passes an increment of the '
-                        'suffix index', bool(names or counters) and not again, node=o,
+                        'suffix index', bool(names or counters or fields) and not again, node=o,
                message='the creation can be retried with the same name (no increment of the '
                        'index on some retry path)')
 
